@@ -1017,3 +1017,6 @@ package mq
 //@   loop 0:
 //@     invariant rangeindex + 1 <= len(p.reasonCodes)
 //@     invariant i - n == rangeindex + 1                                                    #C10 #C02
+
+//@ func (vbint).width
+//@   ensures result == specVbWidth(uint(v))
